@@ -63,6 +63,7 @@ From CSS Require ClassDB.Model ClassDB.Proofs Searcher.Model Searcher.Contracts 
   Spec.GroupingInit Spec.GroupingProd Spec.GroupingProdLink.
 From CSS Require Spec.GroupingProdObj Spec.GroupingPumps Spec.GroupingPumpsProofs Spec.GroupingRun Spec.GroupingDesc Spec.GroupingDescProofs.
 From CSS Require Searcher.Deciders.
+From CSS Require Equiv.Model Equiv.Hist Equiv.Total Props.C06 Spec.ExtractorEquiv.
 Import ListNotations.
 
 (* AUDIT: the find_path contract used to be asked for EVERY pair of labels (forall l t); it is
@@ -78,6 +79,30 @@ Theorem C02_closed : forall rep fpath stored tree root order d,
   dom d root = true /\
   (forall e, In e d -> In e stored \/ exists l t p c, step_of (fpath l t) p c /\ e = (p, [c])).
 Proof. intros rep fpath stored tree root order d Hf. exact (extract_closed_order rep fpath stored tree root order d Hf). Qed.
+
+(* C06 -> C02 (CLAUSES G.2 row 6): the path contract of C02_closed DISCHARGED.  `rep` and `fpath` are no longer
+   free: they are db[.] and find_path of the model of EquivalenceDB (Equiv/Model.v), read on the state reached by
+   ANY history `ops` of equivalence-database operations over natural-number labels (what the class database hands
+   out), for any set-iteration order.  The third conjunct is STRONGER than C02_closed's: a unary entry the
+   extractor adds for a path step is an edge the equivalence database recorded ("follows recorded edges only",
+   C06_path, is finally consumed) - the edges C02_find_rule_total turns back into rules. *)
+Theorem C02_closed_on_equivalence_database :
+  forall (iter : list Z -> list Z),
+  (forall l x, In x (iter l) <-> In x l) -> (forall l, (length (iter l) <= length l)%nat) ->
+  forall ops s rs stored tree root order d,
+  Spec.ExtractorEquiv.nonneg_hist ops ->
+  Equiv.Model.exec iter Equiv.Model.init ops = Some (s, rs) ->
+  extract (Spec.ExtractorEquiv.natrep s) (Spec.ExtractorEquiv.natpath iter s) stored tree root order = Some d ->
+  (forall d0 e2p, decompositions (Spec.ExtractorEquiv.natrep s) stored tree [] [] = Some (d0, e2p) ->
+     forall l, no_lhs d0 root l = true -> In l order) ->
+  (forall e, In e d -> forall c, In c (snd e) -> dom d c = true) /\
+  dom d root = true /\
+  (forall e, In e d -> In e stored \/
+     exists p c, e = (p, [c]) /\ Equiv.Hist.recorded ops (Z.of_nat p) (Z.of_nat c)).
+Proof.
+  intros iter HI HL ops s rs stored tree root order d.
+  exact (Spec.ExtractorEquiv.extract_closed_on_equivdb iter HI HL ops s rs stored tree root order d).
+Qed.
 
 (* a dictionary updated by an assignment has one entry per key (kept as a lemma: this used to be
    the whole of C02_one_rule_per_class, which said nothing about the extractor) *)
@@ -164,6 +189,55 @@ Example C02_closed_near_miss :
   exists d, extract c2_rep c2_fpath c2_stored c2_tree 0%nat [0%nat] = Some d /\
             dom d 0%nat = true /\ dom d 2%nat = false /\ In (5, [1; 2])%nat d.
 Proof. eexists. split; [vm_compute; reflexivity|]. vm_compute. auto. Qed.
+
+(* covers C02_closed_on_equivalence_database: the same extractor instance, with the equivalence database REAL:
+   the history records the two-way edge 0 - 5 and the one-way cycle 1 -> 2 -> 1, then detects cycles; under the
+   ascending iteration order db[0] = db[5] = 5 and db[1] = db[2] = 2 (so the proof tree is at the level of the
+   representatives 5 and 2); the extractor returns the same dictionary c2_d, closed, and its two unary entries
+   (0,[5]) and (2,[1]) are recorded edges *)
+Definition c2_ops : list Equiv.Model.op :=
+  [Equiv.Model.TwoWay 0 5; Equiv.Model.OneWay 1 2; Equiv.Model.OneWay 2 1; Equiv.Model.Connect]%Z.
+Definition c2_eqdb : Equiv.Model.db := Eval vm_compute in
+  match Equiv.Model.exec Equiv.Model.isort Equiv.Model.init c2_ops with Some (s, _) => s | None => Equiv.Model.init end.
+Definition c2_eqrs : list Equiv.Model.res := Eval vm_compute in
+  match Equiv.Model.exec Equiv.Model.isort Equiv.Model.init c2_ops with Some (_, rs) => rs | None => [] end.
+Lemma c2_eqexec : Equiv.Model.exec Equiv.Model.isort Equiv.Model.init c2_ops = Some (c2_eqdb, c2_eqrs).
+Proof. vm_compute. reflexivity. Qed.
+Definition c2_tree_reps : list rkey := [(5, [2; 2]); (2, [])]%nat.
+Lemma c2_eq_nonneg : Spec.ExtractorEquiv.nonneg_hist c2_ops.
+Proof.
+  intros o x Ho Hx. unfold c2_ops in Ho. simpl in Ho.
+  repeat (destruct Ho as [<-|Ho]; [simpl in Hx; intuition (subst; discriminate || (apply Z.leb_le; reflexivity))|]).
+  destruct Ho.
+Qed.
+Lemma c2_eq_extract :
+  extract (Spec.ExtractorEquiv.natrep c2_eqdb) (Spec.ExtractorEquiv.natpath Equiv.Model.isort c2_eqdb)
+          c2_stored c2_tree_reps 0%nat c2_order = Some c2_d.
+Proof. vm_compute. reflexivity. Qed.
+Lemma c2_eq_cover : forall d0 e2p,
+  decompositions (Spec.ExtractorEquiv.natrep c2_eqdb) c2_stored c2_tree_reps [] [] = Some (d0, e2p) ->
+  forall l, no_lhs d0 0%nat l = true -> In l c2_order.
+Proof.
+  assert (E : decompositions (Spec.ExtractorEquiv.natrep c2_eqdb) c2_stored c2_tree_reps [] [] =
+              Some ([(5, [1; 2]); (1, [])]%nat, [(2, 1); (5, 5)]%nat)) by (vm_compute; reflexivity).
+  intros d0 e2p H. rewrite E in H. injection H as <- <-. intros l Hl.
+  destruct l as [|[|[|[|[|[|l]]]]]]; vm_compute in Hl; try discriminate; simpl; auto.
+Qed.
+Example C02_closed_on_equivalence_database_nonvacuous :
+  (forall e, In e c2_d -> forall c, In c (snd e) -> dom c2_d c = true) /\
+  dom c2_d 0%nat = true /\
+  (forall e, In e c2_d -> In e c2_stored \/
+     exists p c, e = (p, [c]) /\ Equiv.Hist.recorded c2_ops (Z.of_nat p) (Z.of_nat c)).
+Proof.
+  exact (C02_closed_on_equivalence_database Equiv.Model.isort Equiv.Hist.isort_In Equiv.Total.isort_len
+           c2_ops c2_eqdb c2_eqrs c2_stored c2_tree_reps 0%nat c2_order c2_d
+           c2_eq_nonneg c2_eqexec c2_eq_extract c2_eq_cover).
+Qed.
+Example C02_equivalence_database_view_values :
+  map (Spec.ExtractorEquiv.natrep c2_eqdb) [0; 1; 2; 5]%nat = [5; 2; 2; 5]%nat /\
+  Spec.ExtractorEquiv.natpath Equiv.Model.isort c2_eqdb 2 1 = [2; 1]%nat /\
+  Spec.ExtractorEquiv.natpath Equiv.Model.isort c2_eqdb 0 1 = [].
+Proof. vm_compute. auto. Qed.
 
 Example C02_one_rule_per_class_nonvacuous :
   NoDup (map fst c2_d) /\ forall p cs, In (p, cs) c2_d <-> lookup c2_d p = Some cs.
@@ -885,6 +959,7 @@ End FINDING.
 
 Import FR GR FINDING.
 Print Assumptions C02_closed.
+Print Assumptions C02_closed_on_equivalence_database.
 Print Assumptions C02_one_rule_per_class.
 Print Assumptions C02_productive_decided.
 Print Assumptions C02_rules_from_table.
